@@ -6,6 +6,12 @@ use std::sync::{Arc, Mutex};
 
 pub type Log = Arc<Mutex<Vec<u32>>>;
 
+/// With JSIM_SCHEDLOG=<file> every scheduling decision is appended to that file as it is taken,
+/// so that the schedule of an execution that kills its process is known to the parent.
+fn schedlog(line: impl FnOnce() -> String) {
+    crate::seq::steplog_to("JSIM_SCHEDLOG", line)
+}
+
 pub struct Recording<S: Scheduler> {
     pub inner: S,
     pub log: Log,
@@ -13,10 +19,12 @@ pub struct Recording<S: Scheduler> {
 
 impl<S: Scheduler> Scheduler for Recording<S> {
     fn new_execution(&mut self) -> Option<Schedule> {
+        schedlog(|| "#exec".to_string());
         self.inner.new_execution()
     }
     fn next_task(&mut self, runnable: &[&Task], current: Option<TaskId>, is_yielding: bool) -> Option<TaskId> {
         let t = self.inner.next_task(runnable, current, is_yielding)?;
+        schedlog(|| usize::from(t).to_string());
         self.log.lock().unwrap().push(usize::from(t) as u32);
         Some(t)
     }
@@ -54,6 +62,7 @@ impl Scheduler for ReplayList {
         }
         self.started = true;
         self.pos = 0;
+        schedlog(|| "#exec".to_string());
         Some(Schedule::new(0))
     }
     fn next_task(&mut self, runnable: &[&Task], current: Option<TaskId>, is_yielding: bool) -> Option<TaskId> {
@@ -63,6 +72,7 @@ impl Scheduler for ReplayList {
             Some(w) if w != u32::MAX && runnable.iter().any(|t| usize::from(t.id()) as u32 == w) => TaskId::from(w as usize),
             _ => default_choice(runnable, current, is_yielding),
         };
+        schedlog(|| usize::from(t).to_string());
         self.log.lock().unwrap().push(usize::from(t) as u32);
         Some(t)
     }
